@@ -4,6 +4,7 @@ EXPLANATION = (
     "hands both to the statement executor, the call that takes the writer lock (Db::begin_write) dominates the call that takes the snapshot "
     "(Db::snapshot); otherwise two concurrent auto-commit statements can both read the pre-state and the second overwrites the first. "
     "A Db opened inside the same function is an unshared handle (named exception). Statement-level serialisability is not decided."
+    " C09.3: every engine-state lock taken by a function that acquires the writer mutex (compact, checkpoint_on_close, begin_write) is taken while the mutex is held, so a writer's read-modify-write cannot interleave with another writer."
 )
 
 SNAPSHOT = ("nervusdb::Db::snapshot", "nervusdb_storage::engine::GraphEngine::begin_read")
